@@ -48,17 +48,28 @@ type App struct {
 	done   chan error
 }
 
-func startApp(pipes map[string]PipeDef) (*App, error) {
+// WriteDefs replaces pipelines.yml (atomically, so that a poll never reads half a file)
+func (a *App) WriteDefs(pipes map[string]PipeDef) error { return writeDefs(a.Dir, pipes) }
+
+func writeDefs(dir string, pipes map[string]PipeDef) error {
+	doc := map[string]interface{}{"pipelines": pipes}
+	b, err := yaml.Marshal(doc)
+	if err != nil {
+		return err
+	}
+	tmp := filepath.Join(dir, ".pipelines.tmp")
+	if err := os.WriteFile(tmp, b, 0644); err != nil {
+		return err
+	}
+	return os.Rename(tmp, filepath.Join(dir, "pipelines.yml"))
+}
+
+func startApp(pipes map[string]PipeDef, extraArgs ...string) (*App, error) {
 	dir, err := os.MkdirTemp("", "realrun")
 	if err != nil {
 		return nil, err
 	}
-	doc := map[string]interface{}{"pipelines": pipes}
-	b, err := yaml.Marshal(doc)
-	if err != nil {
-		return nil, err
-	}
-	if err := os.WriteFile(filepath.Join(dir, "pipelines.yml"), b, 0644); err != nil {
+	if err := writeDefs(dir, pipes); err != nil {
 		return nil, err
 	}
 	l, err := net.Listen("tcp", "127.0.0.1:0")
@@ -69,6 +80,7 @@ func startApp(pipes map[string]PipeDef) (*App, error) {
 	_ = l.Close()
 	args := []string{"prunner", "--jwt-secret", secret, "--config", filepath.Join(dir, ".prunner.yml"), "--data", filepath.Join(dir, ".prunner"),
 		"--path", dir, "--env-files", "", "--address", address}
+	args = append(args, extraArgs...)
 	ctx, cancel := context.WithCancel(context.Background())
 	a := &App{Dir: dir, Base: "http://" + address, cancel: cancel, done: make(chan error, 1)}
 	tok := jwt.New()
